@@ -51,18 +51,14 @@ def bad_file(rng, gens, which=None):
         txt = toml_of(gens) + "    [Networks.next]\n        Generation = 9\n"
         return {"kind": "text", "text": txt, "cfgs": None, "expect": False, "what": "generation key that is not a number"}
     txt = toml_of(gens) + '    [Networks.8]\n        Generation = 8\n        [[Networks.8.WeightedSubnets]]\n            Weight = "heavy"\n'
-    return {"kind": "text", "text": txt, "cfgs": None, "expect": None, "what": "weight of the wrong type"}
+    return {"kind": "text", "text": txt, "cfgs": None, "expect": False, "what": "weight of the wrong type"}
 
 
 def life_cfg(rng, messy=False):
     """a generation's configuration: 1-3 groups, each with IPv4 and IPv6 networks"""
     b = B()
     if messy:
-        cfg = b.rand_cfg(rng, clean=False)
-        for g in cfg["groups"]:
-            if g["nets"] is not None and len(g["nets"]) == 0:
-                g["nets"] = None                      # `Subnets = []` is left to go-toml's taste: not written
-        return cfg
+        return b.rand_cfg(rng, clean=False)            # `Subnets = []` loads as an empty non-nil slice, an absent key as nil
     groups = []
     for _ in range(rng.choice([1, 1, 2, 3])):
         nets = [b.rand_net(rng, 4), b.rand_net(rng, 6)]
@@ -240,8 +236,9 @@ def evaluate(ctx, cases, sres, rres):
         ctx.count(("life", to_json(c)), nontrivial=True, kind="life/history")
         if len(so["steps"]) != len(files) or len(ro["steps"]) != len(files):
             bad = so["steps"][-1] if len(so["steps"]) != len(files) else ro["steps"][-1]
-            ctx.fail("reload/station-or-registrar-stopped", "the history stopped at step %d: stage %s %s"
-                     % (min(len(so["steps"]), len(ro["steps"])) - 1, bad.get("stage"), bad.get("reload", "")), brief(c))
+            ctx.broken("driver-lifecycle", "the station or the registrar could not be taken through the history: it stopped at "
+                       "step %d: stage %s %s" % (min(len(so["steps"]), len(ro["steps"])) - 1, bad.get("stage"), bad.get("reload", "")),
+                       brief(c))
             continue
         loaded, describable = [], True
         for i, f in enumerate(files):
